@@ -1121,7 +1121,48 @@ fn run_long(out: &mut Out, rng: &mut Rng, work: &str, user: bool, hdr_ahead: boo
 	let mut sibling_pattern = 0u64;
 	for h in 1..=n_trunk {
 		let mut specs = vec![];
-		let nsp = if h >= 4 { rng.range(0, 2) + if h + aim > n_trunk { 1 } else { 0 } } else { 0 };
+		// C15: every ninth block and the two blocks below the compaction head are BALANCED - coinbase
+		// plus one 2-input / 1-output transaction: they create exactly as many outputs as they spend
+		let balanced = h >= 10 && (h % 9 == 0 || (h + 3 > n_trunk && h < n_trunk));
+		if balanced {
+			let mut cands: Vec<usize> = spendable
+				.iter()
+				.enumerate()
+				.filter(|(_, (o, c))| (!kit.outs[*o].coinbase || h >= *c + MATURITY) && kit.outs[*o].value >= 10)
+				.map(|(i, _)| i)
+				.collect();
+			if cands.len() >= 2 {
+				let i1 = cands.swap_remove(rng.below(cands.len() as u64) as usize);
+				let i2 = cands.swap_remove(rng.below(cands.len() as u64) as usize);
+				let (hi, lo) = if i1 > i2 { (i1, i2) } else { (i2, i1) };
+				let (o1, _) = spendable.remove(hi);
+				let (o2, _) = spendable.remove(lo);
+				for o in [o1, o2] {
+					if !kit.outs[o].coinbase {
+						spent_plain.push(o);
+					}
+					if let Some(idx) = leaf_of.get(&o) {
+						spent_at.insert(*idx, h);
+					}
+				}
+				specs.push(TxSpec {
+					inputs: vec![o1, o2],
+					outputs: vec![(kit.outs[o1].value + kit.outs[o2].value - 2, None)],
+					kernel: KSpec::Plain(2),
+				});
+				*stats.entry("long:balanced-blocks".into()).or_insert(0) += 1;
+			}
+		}
+		// the block that will be the compaction horizon spends at least one output (one end of the
+		// `current.height > horizon.height` walk; the head block, the other end, spends three)
+		let is_horizon_block = h + grin_core::global::cut_through_horizon() as u64 == n_trunk;
+		let nsp = if balanced {
+			0
+		} else if h >= 4 {
+			(rng.range(0, 2) + if h + aim > n_trunk { 1 } else { 0 }).max(if is_horizon_block { 1 } else { 0 })
+		} else {
+			0
+		};
 		for _ in 0..nsp {
 			let cands: Vec<usize> = spendable
 				.iter()
@@ -1283,20 +1324,35 @@ fn run_long(out: &mut Out, rng: &mut Rng, work: &str, user: bool, hdr_ahead: boo
 	let twin = Subject::new(&format!("{}/long_t", work), &kit.genesis);
 	out.raw("chain new s0");
 	out.raw("chain new t0");
-	for i in &trunk[1..] {
+	let rstats: std::cell::RefCell<BTreeMap<String, u64>> = std::cell::RefCell::new(BTreeMap::new());
+	let rrng = std::cell::RefCell::new(Rng::new(seed_from_env() ^ 0x5eed_c0de));
+	for (k, i) in trunk[1..].iter().enumerate() {
 		let r = subj.deliver_block(&kit.blks[*i].block);
 		out.line(&format!("chain deliver s0 b{}", i), &r);
 		let r = twin.deliver_block(&kit.blks[*i].block);
 		out.line(&format!("chain deliver t0 b{}", i), &r);
+		// C15: discarded extensions that rewind (merkle proof at an older header, txhashset_read,
+		// segmenter) between deliveries - right after balanced blocks and below the head - must be
+		// no-ops; the bitmap root against the from-scratch root after every block
+		bitmap_oracle(out, &kit, &subj, "s0", "after-block", &mut rstats.borrow_mut());
+		let h = k as u64 + 1;
+		if h >= 10 && (h % 9 <= 2 || h + 4 > n_trunk) {
+			discarded_ops(out, &mut rrng.borrow_mut(), &kit, &subj, "s0", &mut rstats.borrow_mut());
+			if subj.roots() != twin.roots() {
+				out.raw(&format!("#ORACLE-FAIL C15 after discarded extensions at height {} the node's roots differ from its twin's: {} vs {}", h, subj.roots(), twin.roots()));
+			}
+		}
 	}
-	let rstats: std::cell::RefCell<BTreeMap<String, u64>> = std::cell::RefCell::new(BTreeMap::new());
-	let rrng = std::cell::RefCell::new(Rng::new(seed_from_env() ^ 0x5eed_c0de));
 	let check_pair = |out: &mut Out, subj: &Subject, twin: &Subject, stage: &str| {
 		let (o, r) = (subj.obs(&kit), subj.roots());
 		let (to, tr) = (twin.obs(&kit), twin.roots());
 		out.line("chain obs s0", &o);
 		// C02: the other reporting paths of the unspent set, on the compacted node
 		report_lines(out, &mut rrng.borrow_mut(), &kit, subj, "s0", &mut rstats.borrow_mut());
+		bitmap_oracle(out, &kit, subj, "s0", stage, &mut rstats.borrow_mut());
+		discarded_ops(out, &mut rrng.borrow_mut(), &kit, subj, "s0", &mut rstats.borrow_mut());
+		// C08: the bitmap compaction receives / would receive as "spent above the horizon"
+		protect_line(out, &kit, subj, "s0", &mut rstats.borrow_mut());
 		if o != to || r != tr {
 			out.raw(&format!(
 				"#ORACLE-FAIL C08 compacted node differs from the never-compacted twin at stage {}: s=[{} {}] t=[{} {}]",
@@ -1457,6 +1513,49 @@ fn run_long(out: &mut Out, rng: &mut Rng, work: &str, user: bool, hdr_ahead: boo
 		}
 		None => {
 			*stats.entry(format!("long:no-branch-prepared-at-tail-height-{}", tail_after)).or_insert(0) += 1;
+		}
+	}
+	// C08: the never-compacted twin, at the end of its life: the walk over its head's path (after
+	// the reorganisations: the abandoned trunk blocks still have their spent-index records but are
+	// not on the path), then the same with the record of one block inside the window deleted behind
+	// the node's back (the walk skips it), then its first compaction
+	{
+		protect_line(out, &kit, &twin, "t0", &mut rstats.borrow_mut());
+		let hd = twin.c().head_header().unwrap();
+		let mut victim = None;
+		let mut cur = hd.clone();
+		for _ in 0..6 {
+			cur = match twin.c().get_previous_header(&cur) {
+				Ok(h) => h,
+				Err(_) => break,
+			};
+			if twin.c().store().batch().ok().and_then(|b| b.get_spent_index(&cur.hash()).ok()).map(|l| !l.is_empty()).unwrap_or(false) {
+				victim = Some(cur.clone());
+				break;
+			}
+		}
+		if let Some(v) = victim {
+			let r = {
+				let store = twin.c().store();
+				match store.batch() {
+					Ok(mut b) => match b.delete(Some(b'S'), v.hash().as_ref()).and_then(|_| b.commit()) {
+						Ok(_) => "ok".to_string(),
+						Err(e) => format!("err:{:?}", e),
+					},
+					Err(e) => format!("err:{:?}", e),
+				}
+			};
+			out.line(&format!("chain spentdrop t0 {}", kit.bid(&v.hash())), &r);
+			protect_line(out, &kit, &twin, "t0", &mut rstats.borrow_mut());
+			let r = match twin.c().compact() {
+				Ok(_) => "ok".to_string(),
+				Err(e) => format!("err:{}", error_class(&e)),
+			};
+			out.line("chain compact t0", &r);
+			protect_line(out, &kit, &twin, "t0", &mut rstats.borrow_mut());
+			out.line("chain obs t0", &twin.obs(&kit));
+			bitmap_oracle(out, &kit, &twin, "t0", "after-compaction-with-a-missing-spent-index-record", &mut rstats.borrow_mut());
+			*stats.entry("long:compaction-with-a-missing-spent-index-record".into()).or_insert(0) += 1;
 		}
 	}
 	*stats.entry("long:blocks".into()).or_insert(0) += kit.blks.len() as u64;
